@@ -34,6 +34,7 @@ var wordPool = []string{
 	"foo", "bar", "baz", "hello", "world", "list", "run", "show", "v", "x", "sub", "wrap", "get", "set", "log", "build",
 	"", " ", "a b", "a=b", "k=v", "k=a=b", "=", "=x", "x=", "1", "7", "007", "3.5", "1..3", "true", "false",
 	"é", "日本", "\xff", "a\nb", "a\tb", "file.txt", "./path/to", "verbose", "help", "name", "-=v", "--=v", "-=", "--=a=b",
+	"/", "/tmp/file", "/v", "/verbose=1", "//x", // absolute paths are plain words (a slash is no option prefix)
 }
 
 var strValPool = []string{
@@ -42,6 +43,7 @@ var strValPool = []string{
 	"a=b", "k=a=b", "=", "==", "=x", "x=", ":x", "::", ":memory:", "=:x", "a b", " lead", "trail ", "a\nb", "\n", "a\r\nb", "a\tb",
 	"é", "日本語", "\xff", "a\xffb", "\x00", strings.Repeat("long", 50),
 	"1", "0", "3.5", "1..3", "1e3", "NaN",
+	"/", "/tmp/file", "/v", "/x=1",
 }
 
 var intValid = []string{"0", "7", "-7", "+7", "007", "42", "123456", "-1", "9223372036854775807", "-9223372036854775808", "1", "2", "3", "10", "010", "0100", "-012", "+08", "0099"}
@@ -50,7 +52,7 @@ var floatValid = []string{"0", "1.5", "-1.5", "+2.25", ".5", "5.", "1e3", "1E-3"
 var floatInvalid = []string{"1..3", "1.5..2.5", "", " 1", "1 ", "1e", "e1", "1e309", "-1e309", "1_000", "１.５", "abc", "1.2.3", "1,5", "--1", "0x", "0x1", "1..3", ".", "+", "1f", "1\n", "NaNx", "in", "1=2", "="}
 var intRanges = []string{"1..3", "-2..2", "0..1", "7..10", "+1..+2", "-5..-3", "1..100"}
 var intRangesBad = []string{"3..1", "1..1", "1..3..5", "a..b", "1..b", "..", "1...3"}
-var mapValid = []string{"k=v", "a=b", "k=a=b", "k==", "k=", "=v", "=", "K=v", "key=value with space", "k=\n", "é=日本", "k=-x", "k=--", "a=1", "b=2", "k=v2", "x=y=z=w"}
+var mapValid = []string{"/k=/v", "k=v", "a=b", "k=a=b", "k==", "k=", "=v", "=", "K=v", "key=value with space", "k=\n", "é=日本", "k=-x", "k=--", "a=1", "b=2", "k=v2", "x=y=z=w"}
 var mapInvalid = []string{"kv", "", "novalue", "1", "a b"}
 
 func sampled(t *rapid.T, label string, pool []string) string {
